@@ -81,13 +81,14 @@ by induction on the loop, that the model's `searchLoop` performs exactly such a 
 def C08_init (cfg : EdCfg) (s : Ed) : SearchVars :=
   { sb := [], hi := cfg.hist.length - 1, d := .reverse, succ := true, buf := s.line.buf, pos := s.line.pos }
 
-/-- the shown-entry invariant: the index is valid; the text shown is the original line or a stored
-    entry; and if the success flag is set, then either nothing has been found yet (empty search text,
+/-- the shown-entry invariant: the index is valid; WHATEVER THE FLAG the text shown is either the
+    original line (nothing found yet: the index is still the newest entry) or the stored entry at the
+    loop's index (since the repair of D50 a failed search leaves the index alone); and if the success flag is set, then either nothing has been found yet (empty search text,
     original line and cursor) or the text shown is the entry at the current index and the search text
     occurs in it at the cursor offset. -/
 def C08_Inv (cfg : EdCfg) (backup : Text) (backupPos : Nat) (c : SearchVars) : Prop :=
   c.hi < cfg.hist.length ∧
-  ((c.buf = backup ∧ c.pos = backupPos) ∨ ∃ i : Nat, cfg.hist[i]? = some c.buf) ∧
+  ((c.buf = backup ∧ c.pos = backupPos ∧ c.hi = cfg.hist.length - 1) ∨ cfg.hist[c.hi]? = some c.buf) ∧
   (c.succ = true →
     (c.sb = [] ∧ c.buf = backup ∧ c.pos = backupPos) ∨
     (cfg.hist[c.hi]? = some c.buf ∧ OccursAt c.sb c.buf c.pos))
@@ -104,17 +105,17 @@ theorem C08_occursAt_dropLast {t e : Text} {off : Nat} (h : OccursAt t e off) : 
 /-- one history search issued from a valid index keeps the shown-entry invariant (success: the hit is
     shown and indexed; failure: text and cursor stay, the flag drops) -/
 theorem C08_inv_searchTry (cfg : EdCfg) (backup : Text) (backupPos : Nat) (c : SearchVars) (sb : Text) (hi : Nat) (d : Dir)
-    (hc : C08_Inv cfg backup backupPos c) (hhi : hi < cfg.hist.length) :
+    (hc : C08_Inv cfg backup backupPos c) (_hhi : hi < cfg.hist.length) :
     C08_Inv cfg backup backupPos (searchTry cfg c sb hi d) := by
   unfold searchTry
   cases hsr : (memHist cfg).search sb hi d with
-  | none => exact ⟨hhi, hc.2.1, fun h => by cases h⟩
+  | none => exact ⟨hc.1, hc.2.1, fun h => by cases h⟩
   | some r =>
     obtain ⟨i, e, off⟩ := r
     obtain ⟨h1, h2, _⟩ := C08_success_sound cfg sb hi d i e off hsr
     have hi' : i < cfg.hist.length := by
       obtain ⟨hlt, _⟩ := List.getElem?_eq_some_iff.mp h1; exact hlt
-    exact ⟨hi', Or.inr ⟨i, h1⟩, fun _ => Or.inr ⟨h1, h2⟩⟩
+    exact ⟨hi', Or.inr h1, fun _ => Or.inr ⟨h1, h2⟩⟩
 
 /-- one search key keeps the shown-entry invariant -/
 theorem C08_inv_step (cfg : EdCfg) (backup : Text) (backupPos : Nat) (c c' : SearchVars) (k : Cmd)
@@ -148,7 +149,7 @@ theorem C08_shown_entry_invariant (cfg : EdCfg) (s : Ed) (hne : cfg.hist ≠ [])
     C08_Inv cfg s.line.buf s.line.pos c ∧
     (c.succ = true → c.sb ≠ [] → cfg.hist[c.hi]? = some c.buf ∧ OccursAt c.sb c.buf c.pos) := by
   have h0 : C08_Inv cfg s.line.buf s.line.pos (C08_init cfg s) := by
-    refine ⟨?_, Or.inl ⟨rfl, rfl⟩, fun _ => Or.inl ⟨rfl, rfl, rfl⟩⟩
+    refine ⟨?_, Or.inl ⟨rfl, rfl, rfl⟩, fun _ => Or.inl ⟨rfl, rfl, rfl⟩⟩
     show cfg.hist.length - 1 < cfg.hist.length
     have : 0 < cfg.hist.length := List.length_pos_iff.mpr hne
     omega
@@ -215,7 +216,10 @@ theorem C08_exit_hands_back_shown_entry (S : Segmenter) (U : UData) (cfg : EdCfg
   obtain ⟨hinv, hshown⟩ := C08_shown_entry_invariant cfg s hne keys cf h1
   refine ⟨keys, cf, h1, h2, h3, hinv, ?_, ?_⟩
   · rw [h4, h5]; exact hshown
-  · rw [h4, h5]; exact hinv.2.1
+  · rw [h4, h5]
+    rcases hinv.2.1 with ⟨a, b, _⟩ | h
+    · exact Or.inl ⟨a, b⟩
+    · exact Or.inr ⟨_, h⟩
 
 /-- **The command that ends the search is then executed normally**: the dispatcher `preCmds` feeds
     the command handed back by the search to itself again, on the state the search left, exactly as
@@ -234,7 +238,7 @@ theorem C08_exit_command_dispatched (S : Segmenter) (U : UData) (cfg : EdCfg) (s
     text `sb`) does to the loop variables.  On success the new index holds the entry now shown, the
     text occurs at the cursor, the new index lies on the requested side of `hi` (inclusive) and no
     entry between `hi` and it contains the text: the NEAREST match, none skipped.  On failure text,
-    cursor and index stay and (for a non-empty text) no entry on that side of `hi` contains the text. -/
+    cursor and the loop's index (`c.hi`, the entry on display) stay and (for a non-empty text) no entry on that side of `hi` contains the text. -/
 theorem C08_searchTry_spec (cfg : EdCfg) (c : SearchVars) (sb : Text) (hi : Nat) (d : Dir) (hhi : hi < cfg.hist.length) :
     (searchTry cfg c sb hi d).sb = sb ∧ (searchTry cfg c sb hi d).d = d ∧
     ((searchTry cfg c sb hi d).succ = true →
@@ -245,7 +249,7 @@ theorem C08_searchTry_spec (cfg : EdCfg) (c : SearchVars) (sb : Text) (hi : Nat)
       (d = .reverse → (searchTry cfg c sb hi d).hi ≤ hi ∧
         ∀ (j : Nat) (e' : Text), (searchTry cfg c sb hi d).hi < j → j ≤ hi → cfg.hist[j]? = some e' → ∀ o, ¬ OccursAt sb e' o)) ∧
     ((searchTry cfg c sb hi d).succ = false →
-      (searchTry cfg c sb hi d).buf = c.buf ∧ (searchTry cfg c sb hi d).pos = c.pos ∧ (searchTry cfg c sb hi d).hi = hi ∧
+      (searchTry cfg c sb hi d).buf = c.buf ∧ (searchTry cfg c sb hi d).pos = c.pos ∧ (searchTry cfg c sb hi d).hi = c.hi ∧
       (sb ≠ [] →
         (d = .forward → ∀ (j : Nat) (e' : Text), hi ≤ j → cfg.hist[j]? = some e' → ∀ o, ¬ OccursAt sb e' o) ∧
         (d = .reverse → ∀ (j : Nat) (e' : Text), j ≤ hi → cfg.hist[j]? = some e' → ∀ o, ¬ OccursAt sb e' o))) := by
@@ -261,14 +265,14 @@ theorem C08_searchTry_spec (cfg : EdCfg) (c : SearchVars) (sb : Text) (hi : Nat)
 /-- **Repeat = next nearest, reverse** (clause 3).  A C-r while searching keeps the search text, sets
     the direction to reverse and searches from the index *one below* the current one: on success the
     entry now shown lies strictly below the previous index, contains the text at the cursor, and no
-    entry strictly between contains the text (the next nearest match, none skipped); on failure text
-    and cursor stay and (non-empty text) no entry strictly below the previous index contains it. -/
+    entry strictly between contains the text (the next nearest match, none skipped); on failure text,
+    cursor and index stay and (non-empty text) no entry strictly below the previous index contains it. -/
 theorem C08_repeat_reverse (cfg : EdCfg) (c c' : SearchVars) (hhi : c.hi < cfg.hist.length)
     (hk : searchKey cfg c .reverseSearchHistory = some c') :
     c'.sb = c.sb ∧ c'.d = .reverse ∧
     (c'.succ = true → c'.hi < c.hi ∧ cfg.hist[c'.hi]? = some c'.buf ∧ OccursAt c.sb c'.buf c'.pos ∧
       ∀ (j : Nat) (e' : Text), c'.hi < j → j < c.hi → cfg.hist[j]? = some e' → ∀ o, ¬ OccursAt c.sb e' o) ∧
-    (c'.succ = false → c'.buf = c.buf ∧ c'.pos = c.pos ∧
+    (c'.succ = false → c'.buf = c.buf ∧ c'.pos = c.pos ∧ c'.hi = c.hi ∧
       (c.sb ≠ [] → ∀ (j : Nat) (e' : Text), j < c.hi → cfg.hist[j]? = some e' → ∀ o, ¬ OccursAt c.sb e' o)) := by
   simp only [searchKey, Option.some.injEq] at hk
   subst hk
@@ -279,10 +283,10 @@ theorem C08_repeat_reverse (cfg : EdCfg) (c c' : SearchVars) (hhi : c.hi < cfg.h
     · obtain ⟨a, b, _, hr⟩ := h3 hs
       obtain ⟨r1, r2⟩ := hr rfl
       exact ⟨by omega, a, b, fun j e' hj1 hj2 => r2 j e' hj1 (by omega)⟩
-    · obtain ⟨a, b, _, hn⟩ := h4 hs
-      exact ⟨a, b, fun hsb j e' hj => (hn hsb).2 rfl j e' (by omega)⟩
+    · obtain ⟨a, b, hh, hn⟩ := h4 hs
+      exact ⟨a, b, hh, fun hsb j e' hj => (hn hsb).2 rfl j e' (by omega)⟩
   · rename_i hpos
-    refine ⟨rfl, rfl, (fun hs => by cases hs), fun _ => ⟨rfl, rfl, fun _ j e' hj => ?_⟩⟩
+    refine ⟨rfl, rfl, (fun hs => by cases hs), fun _ => ⟨rfl, rfl, rfl, fun _ j e' hj => ?_⟩⟩
     omega
 
 /-- **Repeat = next nearest, forward** (clause 3, C-s).  Symmetric: the search starts one above the
@@ -293,7 +297,7 @@ theorem C08_repeat_forward (cfg : EdCfg) (c c' : SearchVars)
     c'.sb = c.sb ∧ c'.d = .forward ∧
     (c'.succ = true → c.hi < c'.hi ∧ cfg.hist[c'.hi]? = some c'.buf ∧ OccursAt c.sb c'.buf c'.pos ∧
       ∀ (j : Nat) (e' : Text), c.hi < j → j < c'.hi → cfg.hist[j]? = some e' → ∀ o, ¬ OccursAt c.sb e' o) ∧
-    (c'.succ = false → c'.buf = c.buf ∧ c'.pos = c.pos ∧
+    (c'.succ = false → c'.buf = c.buf ∧ c'.pos = c.pos ∧ c'.hi = c.hi ∧
       (c.sb ≠ [] → ∀ (j : Nat) (e' : Text), c.hi < j → cfg.hist[j]? = some e' → ∀ o, ¬ OccursAt c.sb e' o)) := by
   simp only [searchKey, Option.some.injEq] at hk
   subst hk
@@ -304,10 +308,10 @@ theorem C08_repeat_forward (cfg : EdCfg) (c c' : SearchVars)
     · obtain ⟨a, b, hf, _⟩ := h3 hs
       obtain ⟨r1, r2⟩ := hf rfl
       exact ⟨by omega, a, b, fun j e' hj1 hj2 => r2 j e' (by omega) hj2⟩
-    · obtain ⟨a, b, _, hn⟩ := h4 hs
-      exact ⟨a, b, fun hsb j e' hj => (hn hsb).1 rfl j e' (by omega)⟩
+    · obtain ⟨a, b, hh, hn⟩ := h4 hs
+      exact ⟨a, b, hh, fun hsb j e' hj => (hn hsb).1 rfl j e' (by omega)⟩
   · rename_i hlt
-    refine ⟨rfl, rfl, (fun hs => by cases hs), fun _ => ⟨rfl, rfl, fun _ j e' hj he' => ?_⟩⟩
+    refine ⟨rfl, rfl, (fun hs => by cases hs), fun _ => ⟨rfl, rfl, rfl, fun _ j e' hj he' => ?_⟩⟩
     obtain ⟨hlt', _⟩ := List.getElem?_eq_some_iff.mp he'
     omega
 
@@ -339,27 +343,71 @@ theorem C08_repeat_after_success (cfg : EdCfg) (s : Ed) (hne : cfg.hist ≠ []) 
     fun hk => (C08_repeat_reverse cfg c c' hinv.1 hk).2.2.1 hs',
     fun hk => (C08_repeat_forward cfg c c' hk).2.2.1 hs'⟩
 
-/-! ### Finding: a FAILED repeat still moves the index (no match is skipped only relative to the index)
+/-! ### Repeat from the entry ON DISPLAY (defect D50, repaired)
 
-`src/lib.rs` decrements/increments `history_idx` *before* the search of a repeated C-r / C-s and does
-not put it back when that search fails.  So after failed repeats the loop's index is no longer the
-index of the entry on display, and once the text is shortened with Backspace the next C-r searches
-from the drifted index: entries between the entry on display and the drifted index are skipped even
-if they contain the (shortened) text.  Replay on the real crate (harness request, emacs mode, history
-"a", "xa", "ab"; keys C-r a b C-r Backspace C-r Enter):
-`ed08 e 20 - 97;120,97;97,98 - - - - 12 61 62 12 7f 12 0d` → the display goes "ab" → "a" and the
-line returned is "a"; "xa" (nearer, contains "a") is never shown.  The model agrees. -/
+Before the repair `src/lib.rs` decremented/incremented `history_idx` *before* the search of a repeated
+C-r / C-s and did not put it back when that search failed: after a failed repeat the index was no
+longer that of the entry on display, and once the text was shortened with Backspace the next C-r
+skipped an entry.  Replay (emacs mode, history "a", "xa", "ab"; keys C-r a b C-r Backspace C-r Enter):
+`ed08 e 20 - 97;120,97;97,98 - - - - 12 61 62 12 7f 12 0d` went "ab" → "a" and never offered "xa".
+The loop now remembers the index at the top of the iteration and restores it when the search fails,
+so the index is the entry on display whatever the flag (`C08_index_is_shown`), a failed repeat moves
+nothing (`C08_failed_repeat_keeps_index`) and a repeat is the next nearest match from the entry on
+display (`C08_repeat_from_shown`); the replay now offers "xa" (regression examples below). -/
 
-/-- the reading of "repeat = next nearest" relative to the *entry on display* whatever the flag: no
-    entry strictly between the newly shown entry and (an index of) the text shown before the key
-    contains the search text.  FALSE — see `C08_repeat_from_shown_false`; true when the flag is set
-    (`C08_repeat_after_success`). -/
+/-- **The loop's index is the entry on display, whatever the flag.**  After every sequence of search
+    keys either nothing has been found yet (the original line and cursor are shown and the index is
+    still the newest entry, where the search starts) or the text shown is `cfg.hist[c.hi]`. -/
+theorem C08_index_is_shown (cfg : EdCfg) (s : Ed) (hne : cfg.hist ≠ []) (keys : List Cmd) (c : SearchVars)
+    (hrun : searchRun cfg (C08_init cfg s) keys = some c) :
+    (c.buf = s.line.buf ∧ c.pos = s.line.pos ∧ c.hi = cfg.hist.length - 1) ∨ cfg.hist[c.hi]? = some c.buf :=
+  (C08_shown_entry_invariant cfg s hne keys c hrun).1.2.1
+
+/-- **A failed repeat moves nothing**: after a C-r / C-s that finds nothing, index, text shown and
+    cursor are those from before the key (only the flag drops and the direction is set). -/
+theorem C08_failed_repeat_keeps_index (cfg : EdCfg) (s : Ed) (hne : cfg.hist ≠ []) (keys : List Cmd) (c c' : SearchVars)
+    (hrun : searchRun cfg (C08_init cfg s) keys = some c) (hf : c'.succ = false) :
+    (searchKey cfg c .reverseSearchHistory = some c' → c'.hi = c.hi ∧ c'.buf = c.buf ∧ c'.pos = c.pos) ∧
+    (searchKey cfg c .forwardSearchHistory = some c' → c'.hi = c.hi ∧ c'.buf = c.buf ∧ c'.pos = c.pos) := by
+  obtain ⟨hinv, _⟩ := C08_shown_entry_invariant cfg s hne keys c hrun
+  refine ⟨fun hk => ?_, fun hk => ?_⟩
+  · obtain ⟨a, b, h, _⟩ := (C08_repeat_reverse cfg c c' hinv.1 hk).2.2.2 hf
+    exact ⟨h, a, b⟩
+  · obtain ⟨a, b, h, _⟩ := (C08_repeat_forward cfg c c' hk).2.2.2 hf
+    exact ⟨h, a, b⟩
+
+/-- "repeat = next nearest" relative to the *entry on display* whatever the flag: if the text shown
+    before the key is a stored entry at index `i` (and at no other index: with duplicate entries
+    "the index of the text shown" is ambiguous and the entry on display is `cfg.hist[c.hi]`, see
+    `C08_index_is_shown`), then after a successful C-r (resp. C-s) no entry strictly between the newly
+    shown entry and `i` contains the search text.  Refuted before the repair of D50 (the replay
+    above), PROVED now: `C08_repeat_from_shown`. -/
 def C08_repeat_from_shown_statement : Prop :=
   ∀ (cfg : EdCfg) (s : Ed) (keys : List Cmd) (c c' : SearchVars), cfg.hist ≠ [] →
     searchRun cfg (C08_init cfg s) keys = some c →
-    searchKey cfg c .reverseSearchHistory = some c' → c'.succ = true →
-    ∀ (i : Nat), cfg.hist[i]? = some c.buf →
-      ∀ (j : Nat) (e' : Text), c'.hi < j → j < i → cfg.hist[j]? = some e' → ∀ o, ¬ OccursAt c.sb e' o
+    ∀ (i : Nat), cfg.hist[i]? = some c.buf → (∀ i' : Nat, cfg.hist[i']? = some c.buf → i' = i) →
+    (searchKey cfg c .reverseSearchHistory = some c' → c'.succ = true →
+      ∀ (j : Nat) (e' : Text), c'.hi < j → j < i → cfg.hist[j]? = some e' → ∀ o, ¬ OccursAt c.sb e' o) ∧
+    (searchKey cfg c .forwardSearchHistory = some c' → c'.succ = true →
+      ∀ (j : Nat) (e' : Text), i < j → j < c'.hi → cfg.hist[j]? = some e' → ∀ o, ¬ OccursAt c.sb e' o)
+
+/-- **Repeat = next nearest from the entry on display, whatever the flag** (after failed repeats,
+    backspaces, direction changes …): no nearer match is skipped. -/
+theorem C08_repeat_from_shown : C08_repeat_from_shown_statement := by
+  intro cfg s keys c c' hne hrun i hi huniq
+  obtain ⟨hinv, _⟩ := C08_shown_entry_invariant cfg s hne keys c hrun
+  have hilt : i < cfg.hist.length := (List.getElem?_eq_some_iff.mp hi).1
+  have hle : i ≤ c.hi ∧ (c.hi = i ∨ c.hi = cfg.hist.length - 1) := by
+    rcases hinv.2.1 with ⟨_, _, h⟩ | h
+    · exact ⟨by omega, Or.inr h⟩
+    · have := huniq _ h
+      exact ⟨by omega, Or.inl this⟩
+  refine ⟨fun hk hs j e' h1 h2 => ?_, fun hk hs j e' h1 h2 => ?_⟩
+  · obtain ⟨_, _, _, d⟩ := (C08_repeat_reverse cfg c c' hinv.1 hk).2.2.1 hs
+    exact d j e' h1 (by omega)
+  · obtain ⟨a, b, _, d⟩ := (C08_repeat_forward cfg c c' hk).2.2.1 hs
+    have : c'.hi < cfg.hist.length := (List.getElem?_eq_some_iff.mp b).1
+    exact d j e' (by omega) h2
 
 /-- witness data: one cluster per character, width 1, emacs mode, history "a", "xa", "ab" -/
 def C08_wit_seg : Segmenter where
@@ -386,32 +434,25 @@ def C08_wit_state (future : List (List UInt8)) : Ed :=
     inp := {}, hint := none, highlightChar := false, defaultPrompt := true,
     input := { buf := [], avail := [], future := future }, obs := [], validatorCalls := [] }
 
-/-- the automaton on the finding's keys `a b C-r Backspace`: the entry on display is still "ab"
-    (index 2) but the index has moved to 1 and the flag is down; the next C-r shows "a" (index 0) -/
-theorem C08_failed_repeat_moves_index :
+/-- regression (D50), the automaton on the replay's keys `a b C-r Backspace`: the entry on display is
+    "ab" (index 2), the failed C-r leaves the index at 2 and only drops the flag; the next C-r offers
+    "xa" (index 1) -/
+theorem C08_failed_repeat_replay_automaton :
     searchRun C08_wit_cfg (C08_init C08_wit_cfg (C08_wit_state []))
       [.selfInsert 1 'a', .selfInsert 1 'b', .reverseSearchHistory, .kill (.backwardChar 1)] =
-      some { sb := ['a'], hi := 1, d := .reverse, succ := false, buf := ['a', 'b'], pos := 0 } ∧
-    searchKey C08_wit_cfg { sb := ['a'], hi := 1, d := .reverse, succ := false, buf := ['a', 'b'], pos := 0 }
+      some { sb := ['a'], hi := 2, d := .reverse, succ := false, buf := ['a', 'b'], pos := 0 } ∧
+    searchKey C08_wit_cfg { sb := ['a'], hi := 2, d := .reverse, succ := false, buf := ['a', 'b'], pos := 0 }
       .reverseSearchHistory =
-      some { sb := ['a'], hi := 0, d := .reverse, succ := true, buf := ['a'], pos := 0 } := by
+      some { sb := ['a'], hi := 1, d := .reverse, succ := true, buf := ['x', 'a'], pos := 1 } := by
   decide +kernel
 
-/-- **`C08_repeat_from_shown_statement` is false** (model and real code): on the witness the C-r after
-    `a b C-r Backspace` goes from "ab" (index 2) to "a" (index 0) although "xa" (index 1) contains "a". -/
-theorem C08_repeat_from_shown_false : ¬ C08_repeat_from_shown_statement := by
-  intro h
-  obtain ⟨h1, h2⟩ := C08_failed_repeat_moves_index
-  exact h C08_wit_cfg (C08_wit_state []) _ _ _ (by decide) h1 h2 rfl 2 rfl 1 ['x', 'a'] (by decide) (by decide) rfl 1
-    ⟨['x'], [], rfl, rfl⟩
-
-/-- the finding replayed through the MODEL's loop (keys a b C-r Backspace C-r Enter): Enter is handed
-    back with the line "a", cursor 0 -/
+/-- regression (D50), the replay through the MODEL's loop (keys a b C-r Backspace C-r Enter): Enter is
+    handed back with the line "xa", cursor 1 (before the repair: "a", cursor 0) -/
 theorem C08_failed_repeat_replay_model :
     (reverseIncrementalSearch C08_wit_seg C08_wit_udata C08_wit_cfg 20
         (C08_wit_state [[0x61], [0x62], [0x12], [0x7f], [0x12], [0x0d]])).toOption.map
       (fun r => (r.1, r.2.line.buf, r.2.line.pos)) =
-    some (some (.acceptOrInsertLine true), ['a'], 0) := by decide +kernel
+    some (some (.acceptOrInsertLine true), ['x', 'a'], 1) := by decide +kernel
 
 /-- non-vacuity of `C08_loop_is_run` / `C08_exit_hands_back_shown_entry`: a run of the model's loop
     that hands a command back on a growable buffer (keys a C-r Enter: "ab" then "xa", cursor 1) -/
@@ -432,12 +473,13 @@ example :
       some { sb := ['a'], hi := 1, d := .reverse, succ := true, buf := ['x', 'a'], pos := 1 } ∧
     C08_wit_cfg.hist ≠ [] := by decide +kernel
 
-/-- the finding as a whole read of the model (keys C-r a b C-r Backspace C-r Enter on an empty line):
-    the line returned is "a" — what the real crate returns for the harness request quoted above -/
+/-- regression (D50), the replay as a whole read of the model (keys C-r a b C-r Backspace C-r Enter on
+    an empty line): the line returned is "xa" — what the repaired crate returns for the harness request
+    quoted above (corpus/C08.txt) -/
 example :
     (readline C08_wit_seg C08_wit_udata C08_wit_cfg (KillRing.new 60) [] []
       { buf := [], avail := [], future := [[0x12], [0x61], [0x62], [0x12], [0x7f], [0x12], [0x0d]] }).1
-      = .line ['a'] := by decide +kernel
+      = .line ['x', 'a'] := by decide +kernel
 
 /-- **What an iteration displays** (the link between the success flag and what the user sees).  Every
     iteration of the model's loop with variables `c`, on a state whose line is the text and cursor of
